@@ -29,6 +29,7 @@ type Pool struct {
 	SeqLen   int  // inputs per sequence
 	Baseline bool // poll the goroutine profile at the end of every sequence
 	Prof     bool // check the goroutine profile after every parse
+	Slow     bool // slow lane: generous triage thresholds
 
 	mu        sync.Mutex
 	edges     map[string]struct{}
@@ -77,6 +78,9 @@ func NewPool(n int) *Pool {
 func (p *Pool) start() (*proc, error) {
 	cmd := exec.Command(p.exe, "--worker")
 	cmd.Env = append(os.Environ(), "GOTRACEBACK=all")
+	if p.Slow {
+		cmd.Env = append(cmd.Env, "VERIF_TRIAGE_SLOW=1")
+	}
 	stdin, err := cmd.StdinPipe()
 	if err != nil {
 		return nil, err
@@ -250,7 +254,7 @@ func (p *Pool) feed(pr *proc, inputs []Input, results []Result, pos, hi int) int
 		w.Flush()
 	}(pos, hi)
 	for i := pos; i < hi; i++ {
-		r, err := pr.readResult(20 * time.Second)
+		r, err := pr.readResult(200 * time.Second)
 		if err != nil {
 			// the process died (panic in a scanner goroutine, fatal error) or is stuck
 			stuck := strings.Contains(err.Error(), "timeout")
